@@ -77,6 +77,21 @@ def put_json(eng, name, obj):
     return p
 
 
+def replace_json(eng, loc, obj):
+    """Replace the content of the JSON file at `loc` by `obj` without changing its size or modification time."""
+    if eng.mods.symbolic:
+        from .. import stubs
+        stubs.FS[loc] = [("json", obj)]
+        return True
+    st = os.stat(loc)
+    with open(loc, "w") as f:
+        json.dump(obj, f, ensure_ascii=False)
+    if os.stat(loc).st_size != st.st_size:
+        return False
+    os.utime(loc, ns=(st.st_atime_ns, st.st_mtime_ns))
+    return True
+
+
 def rec_of(c, prefix):
     hits = [r for r in c.records if sym_eq(r.prefix, prefix)]
     return hits[0] if len(hits) == 1 else None
@@ -243,6 +258,16 @@ def build(job):
             loc = put_json(eng, name, obj)
             eng.expect(records_eq(base, snapshot_records(loader(loc))), f"{loader.__name__}: loading from a str location differs from loading the object")
             eng.expect(records_eq(base, snapshot_records(loader(api.Path(loc)))), f"{loader.__name__}: loading from a Path differs from loading the object")
+        # the file is replaced by different data of the same size with an unchanged timestamp: a load must see the new data
+        if not eng.mods.symbolic and any(len(a.encode()) != len(b.encode()) for a, b in zip(vs, vs[::-1])):
+            return "ok"
+        pm2 = eng.mkdict(list(zip(ks, vs[::-1])))
+        loc = put_json(eng, "pm2.json", pm) if True else None
+        api.Converter.from_prefix_map(loc)
+        if replace_json(eng, loc, pm2):
+            want = snapshot_records(api.Converter.from_prefix_map(pm2))
+            eng.expect(records_eq(want, snapshot_records(api.Converter.from_prefix_map(loc))) and records_eq(want, snapshot_records(api.Converter.from_prefix_map(api.Path(loc)))),
+                       "from_prefix_map: a file whose content was replaced is loaded with its old content")
         return "ok"
 
     return dict(prefix_map=prefix_map, priority=priority, reverse=reverse, upgrade=upgrade, jsonld=jsonld, epm=epm,
